@@ -162,6 +162,7 @@ def run(ctx: Ctx) -> None:
             ctx.ob("C16.R3", it, st.second or it.node, f"one-shot '{name}' consumed once", st.count < 2,
                    "" if st.count < 2 else "the population iterator is consumed twice: given an iterator the step returns nothing")
         yc = YieldCounter(it, "target_size", "population")
+        yc.prog = prog
         for st in yc.run():
             status, detail, wit = verdict(yc, st, yc.k)
             ctx.ob("C16.R3", it, it.node, f"yields exactly target_size [{'; '.join(st.conds) or 'all inputs'}]",
